@@ -4,6 +4,7 @@
 pub mod fastq {
     use vstd::prelude::*;
     use super::io;
+    use super::io::Seek;
     use super::buffer_redux;
     use super::memchr_stub::memchr;
     use super::spec::*;
@@ -132,7 +133,9 @@ pub mod fastq {
     }
     pub open spec fn trimmed_eq(b: Seq<u8>, s: int) -> bool { g_seq(b, s).len() == g_qual(b, s).len() }
     /// C02: the length verdict is claimed only for same-terminator records
+    #[verifier::opaque]
     pub open spec fn may_accept(b: Seq<u8>, s: int) -> bool { same_term(b, s) ==> trimmed_eq(b, s) }
+    #[verifier::opaque]
     pub open spec fn may_reject(b: Seq<u8>, s: int) -> bool { same_term(b, s) ==> !trimmed_eq(b, s) }
     /// id reported in errors: header without '@', up to the first space; only if the header line has a byte
     pub open spec fn g_id(b: Seq<u8>, s: int) -> Option<Seq<u8>> {
@@ -154,7 +157,11 @@ pub mod fastq {
     }
 
     /// the error `validate` must produce for a complete group at s (first broken rule wins)
-    spec fn verr(e: Error, b: Seq<u8>, s: int, line: int) -> bool {
+    /// a format error (not an I/O error, not a buffer-limit error)
+    pub open spec fn fmt_variant(e: Error) -> bool { !(e is Io) && !(e is BufferLimit) }
+    spec fn verr(e: Error, b: Seq<u8>, s: int, line: int) -> bool { fmt_variant(e) && verr_body(e, b, s, line) }
+    #[verifier::opaque]
+    spec fn verr_body(e: Error, b: Seq<u8>, s: int, line: int) -> bool {
         if b[s] != 64u8 {
             e matches Error::InvalidStart { found, pos } && found == b[s] && pos.line == line && pos.id is None
         } else if b[c2(b, s) + 1] != 43u8 {
@@ -181,7 +188,9 @@ pub mod fastq {
         if c1(b, s) >= b.len() { 0 } else if c2(b, s) >= b.len() { 1 } else { 2 }
     }
     /// error for a group cut short by the end of input
-    spec fn eerr(e: Error, b: Seq<u8>, s: int, line: int) -> bool {
+    spec fn eerr(e: Error, b: Seq<u8>, s: int, line: int) -> bool { fmt_variant(e) && eerr_body(e, b, s, line) }
+    #[verifier::opaque]
+    spec fn eerr_body(e: Error, b: Seq<u8>, s: int, line: int) -> bool {
         e matches Error::UnexpectedEnd { pos } && pos.line == line + nterm(b, s)
             && id_matches(pos.id, if c1(b, s) < b.len() { g_id(b, s) } else { None })
     }
@@ -250,6 +259,7 @@ pub mod fastq {
             vok(f, a + s) == vok(b, s),
             forall|e: Error, line: int| verr(e, f, a + s, line) == verr(e, b, s, line),
     {
+        reveal(may_accept); reveal(may_reject); reveal(verr_body);
         let n = b.len() as int;
         lemma_chain_bounds(b, s);
         lemma_nl_window(f, a, a + n, a + s);
@@ -276,6 +286,7 @@ pub mod fastq {
             c1(b, s) < b.len() ==> g_id(f, a + s) == g_id(b, s),
             forall|e: Error, line: int| eerr(e, f, a + s, line) == eerr(e, b, s, line),
     {
+        reveal(eerr_body);
         let n = b.len() as int;
         lemma_chain_bounds(b, s);
         lemma_nl_window(f, a, a + n, a + s);
@@ -542,7 +553,7 @@ pub mod fastq {
             [C02,C12,C17|fastq.validate.err] r matches Err(e) ==> verr(e, final(self).b(), final(self).buf_pos.pos.0 as int, final(self).position.line as int)
                 && final(self).state == State::Finished,
 //@body_start
-        proof { lemma_chain_bounds(self.b(), self.buf_pos.pos.0 as int); }
+        proof { reveal(may_accept); reveal(may_reject); reveal(verr_body); lemma_chain_bounds(self.b(), self.buf_pos.pos.0 as int); }
 //@end
 
 //@fn fastq::Reader::get_error_pos ret=r tags=C17,C06
@@ -584,7 +595,7 @@ pub mod fastq {
                           && eerr(e, final(self).b(), final(self).buf_pos.pos.0 as int, final(self).position.line as int),
             },
 //@body_start
-        proof { lemma_chain_bounds(self.b(), self.buf_pos.pos.0 as int); }
+        proof { reveal(eerr_body); lemma_chain_bounds(self.b(), self.buf_pos.pos.0 as int); }
 //@closure 0 params="c: &u8" ret="(r: bool)"
             ensures r == (*c == 10u8)
 //@closure 1 params="l: &[u8]" ret="(r: bool)"
@@ -629,8 +640,9 @@ pub mod fastq {
         &&& self.wf0()
         &&& self.position.byte == self.gpos()
         &&& self.buf_pos.pos.0 <= self.b().len() + 1
+        &&& self.position.byte <= self.f().len() + 1
         &&& match self.state {
-                State::New => self.base() == 0 && self.buf_pos.pos.0 == 0 && self.incomplete_pos is None,
+                State::New => self.base() == 0 && self.buf_pos.pos.0 == 0 && self.incomplete_pos is None && (self.clean() ==> self.b().len() == 0),
                 State::Parsing => self.filled() && self.incomplete_pos is None && self.buf_pos.valid(self.b()) && self.buf_pos.pos.1 < self.b().len(),
                 State::Positioned => self.filled() && self.buf_pos.pos.0 <= self.b().len()
                     && (self.incomplete_pos matches Some(k) ==> stuck(self.b(), self.buf_pos, rp(k))),
@@ -653,9 +665,9 @@ pub mod fastq {
         requires
             old(self).wf(), old(self).state == State::New,
         ensures
-            [C06,C14|fastq.init.frame] final(self).wf() && final(self).f() == old(self).f() && final(self).buf_policy == old(self).buf_policy
+            [C06,C14|fastq.init.frame] final(self).wf0() && final(self).f() == old(self).f() && final(self).buf_policy == old(self).buf_policy
                 && final(self).position == old(self).position && final(self).buf_pos == old(self).buf_pos && final(self).incomplete_pos is None
-                && final(self).base() == 0,
+                && final(self).base() == 0 && (r matches Ok(true) || final(self).wf()),
             [C02,C14|fastq.init.ok] r matches Ok(more) ==> final(self).buf_reader.errs() == old(self).buf_reader.errs() && final(self).filled()
                 && (more ==> final(self).state == State::New && final(self).b().len() > 0)
                 && (!more ==> final(self).state == State::Finished && (!old(self).poisoned() ==> final(self).f().len() == 0)),
@@ -733,6 +745,16 @@ pub mod fastq {
             }
 //@end
 
+//@fn fastq::Reader::set_policy ret=r tags=C09
+//@spec
+        requires
+            self.wf(), policy.policy_ok(),
+        ensures
+            [C09|fastq.set_policy.keeps_stream] r.wf() && r.buf_reader == self.buf_reader && r.buf_pos == self.buf_pos && r.position == self.position
+                && r.incomplete_pos == self.incomplete_pos && r.state == self.state && r.buf_policy == policy
+                && r.cursor() == self.cursor() && r.f() == self.f(),
+//@end
+
 //@fn fastq::Reader::next ret=r tags=C02,C03,C05,C06,C14,C17
 //@spec
         requires
@@ -792,6 +814,35 @@ pub mod fastq {
 //@spec
         ensures
             [C05|fastq.position.is_field] *r == self.position,
+//@end
+}
+
+//@impl_open fastq::Reader::seek
+//@fn fastq::Reader::seek ret=r tags=C05,C06,C14 r12="seek|fill_buf"
+//@spec
+        requires
+            old(self).wf(),
+            to.byte <= old(self).f().len(),
+            to.line == true_line(old(self).f(), to.byte as int),
+        ensures
+            [C05,C06|fastq.seek.frame] final(self).f() == old(self).f() && final(self).buf_policy == old(self).buf_policy,
+            [C05,C03|fastq.seek.positioned] r is Ok ==> final(self).wf() && final(self).state == State::Positioned && final(self).incomplete_pos is None
+                && final(self).position == *to && final(self).gpos() == to.byte && final(self).cursor() == to.byte
+                && final(self).buf_reader.errs() == old(self).buf_reader.errs(),
+            [C09|fastq.seek.capacity] final(self).buf_reader.cap() == old(self).buf_reader.cap(),
+            [C14|fastq.seek.err] r matches Err(e) ==> (e matches Error::Io(x) && final(self).buf_reader.errs() == old(self).buf_reader.errs().push(x)),
+//@end
+}
+
+//@impl_open fastq::Reader::with_capacity
+//@fn fastq::Reader::with_capacity ret=r tags=C02,C06,C09
+//@spec
+        requires
+            3 <= capacity <= isize::MAX,
+        ensures
+            [C06,C02|fastq.with_capacity.fresh] r.wf() && r.state == State::New && r.b().len() == 0 && r.clean() && r.cursor() == 0
+                && r.position.line == 1 && r.position.byte == 0,
+            [C09|fastq.with_capacity.capacity] r.buf_reader.cap() >= capacity,
 //@end
 }
 
